@@ -124,9 +124,17 @@ class CFG:
             self.stmt_node[id(st)] = h
             self._attach(preds, h)
             breaks = []
+            one_trip = False
+            it = norm.subst(st.iter, self.env) if self.env else st.iter
+            if isinstance(it, ast.Call) and isinstance(it.func, ast.Name) and it.func.id == "range" and len(it.args) == 1 \
+                    and isinstance(it.args[0], ast.Constant) and it.args[0].value == 1:
+                one_trip = True   # range(1): the body runs exactly once; no back edge, no zero-trip exit
             self._loops.append((h.id, breaks))
             body_end = self._block(st.body, [(h.id, "iter")])
             self._loops.pop()
+            if one_trip and not any(isinstance(x, ast.Continue) for x in ast.walk(st)):
+                out = self._block(st.orelse, body_end)
+                return out + breaks
             for src, lab in body_end:
                 self._edge(src, h.id, lab if lab is not None else "back")
             out = self._block(st.orelse, [(h.id, "done")])
@@ -239,7 +247,10 @@ class CFG:
                     # the statement may have raised midway: its writes may or may not have happened, nothing is established
                     out = _kill(cur, kills[i])
                 elif isinstance(lab, tuple) and lab[0] == "cond":
-                    out = out_base | frozenset(norm.atoms_true(lab[1]))
+                    add = norm.atoms_true(lab[1])
+                    if lab[1] == ("false",) or any(norm.neg(a_) in out_base for a_ in add if a_[0] in ("cmp", "truth")):
+                        continue  # the branch condition contradicts what is known: infeasible edge (dead-branch pruning)
+                    out = out_base | frozenset(add)
                 old = IN[t]
                 new = out if old is None else (old & out)
                 if old is None or new != old:
@@ -460,8 +471,11 @@ def _gen(n: "Node") -> FrozenSet:
         if t is None:
             return frozenset()
         v = a.value
-        if isinstance(v, ast.Constant) and isinstance(v.value, (int, float)) and not isinstance(v.value, bool):
-            return frozenset([norm.mk_cmp("==", t, repr(v.value))])
+        cv = norm._const(v)
+        if cv is not None:
+            return frozenset([norm.mk_cmp("==", t, norm.U(v))])
+        if isinstance(v, ast.Constant) and v.value is None:
+            return frozenset([("cmp", "is", t, "None")])
         if _is_term(v):
             vt = norm.U(v)
             if t not in _names_of_text(vt)[0] and vt != t:
